@@ -119,6 +119,237 @@ theorem garbage_exact (c : Map (Obj σ)) (keep : String) (k : String) (hs : ∀ 
       rw [if_neg this]
       simp only [hcond, if_false]
 
+/-! ### one whole synchronisation, and synchronisations interrupted by API errors -/
+
+open Nic.Arb.Map (Sorted)
+
+theorem apply_sorted (c : Map (Obj σ)) (a : Action σ) (hs : Sorted c) : Sorted (apply c a) := by
+  cases a <;> simp only [apply]
+  · exact Nic.Arb.Map.set_sorted _ _ _ hs
+  · exact Nic.Arb.Map.set_sorted _ _ _ hs
+  · exact Nic.Arb.Map.erase_sorted _ _ hs
+
+theorem run_sorted (c : Map (Obj σ)) (as : List (Action σ)) (hs : Sorted c) : Sorted (run c as) := by
+  induction as generalizing c with
+  | nil => exact hs
+  | cons a r ih => exact ih _ (apply_sorted c a hs)
+
+theorem run_append (c : Map (Obj σ)) (a b : List (Action σ)) : run c (a ++ b) = run (run c a) b := by
+  simp [run, List.foldl_append]
+
+theorem upsert_other (c : Map (Obj σ)) (name : String) (want : σ) (k : String) (hk : k ≠ name) :
+    (run c (upsert c name want)).get? k = c.get? k := by
+  unfold upsert run
+  cases hn : c.get? name with
+  | none => simp [apply, Map.get?_set_ne _ _ _ _ hk]
+  | some x =>
+    by_cases hx : x.owner = .own
+    · by_cases hsp : x.spec = want
+      · simp [hx, hsp]
+      · simp [hx, hsp, apply, Map.get?_set_ne _ _ _ _ hk]
+    · simp [hx]
+
+/-- **The cluster after one successful synchronisation of the cert-manager side**, key by key: under the needed name, the desired
+object (unless somebody else's object is in the way, which stays); under every other name, only what this VirtualServer does not control. -/
+theorem syncCert_result (c : Map (Obj σ)) (hs : Sorted c) (name : String) (want : σ) (k : String) :
+    (run c (syncCert c (some (name, want)))).get? k =
+      if k = name then
+        (match c.get? name with
+         | none => some ⟨.own, want⟩
+         | some o => if o.owner = .own then some ⟨.own, want⟩ else some o)
+      else
+        (match c.get? k with
+         | some o => if o.owner = .own then none else some o
+         | none => none) := by
+  simp only [syncCert]
+  rw [run_append]
+  have hs1 : Sorted (run c (upsert c name want)) := run_sorted _ _ hs
+  have hfold : List.foldl apply c (upsert c name want) = run c (upsert c name want) := rfl
+  rw [hfold]
+  rw [garbage_exact (run c (upsert c name want)) name k (fun k o h => Nic.Arb.Map.mem_of_get? _ k o h)
+    (fun k o h => Nic.Arb.Map.get?_of_mem _ hs1 k o h)]
+  by_cases hk : k = name
+  · subst hk
+    simp only [if_true]
+    rw [upsert_result]
+    cases c.get? k with
+    | none => simp
+    | some o => by_cases ho : o.owner = .own <;> simp [ho]
+  · simp only [hk, if_false]
+    rw [upsert_other c name want k hk]
+    cases c.get? k with
+    | none => rfl
+    | some o => by_cases ho : o.owner = .own <;> simp [ho, hk]
+
+/-- **Objects that are not controlled by this VirtualServer are never updated or deleted** by a whole synchronisation. -/
+theorem syncCert_foreign_untouched (c : Map (Obj σ)) (hs : Sorted c) (d : Option (String × σ)) (k : String) (o : Obj σ)
+    (h : c.get? k = some o) (ho : o.owner ≠ .own) : (run c (syncCert c d)).get? k = some o := by
+  cases d with
+  | none => simpa [syncCert, run] using h
+  | some nw =>
+    obtain ⟨name, want⟩ := nw
+    rw [syncCert_result c hs name want k]
+    by_cases hk : k = name
+    · subst hk; simp [h, ho]
+    · simp [hk, h, ho]
+
+/-- **Objects it no longer needs are removed**: after a synchronisation the VirtualServer controls nothing but the needed object. -/
+theorem syncCert_nothing_left (c : Map (Obj σ)) (hs : Sorted c) (name : String) (want : σ) (k : String) (o : Obj σ)
+    (h : (run c (syncCert c (some (name, want)))).get? k = some o) (ho : o.owner = .own) : k = name ∧ o.spec = want := by
+  rw [syncCert_result c hs name want k] at h
+  by_cases hk : k = name
+  · subst hk
+    simp only [if_true] at h
+    cases hc : c.get? k with
+    | none => simp [hc] at h; subst h; exact ⟨rfl, rfl⟩
+    | some x =>
+      simp only [hc] at h
+      by_cases hx : x.owner = .own
+      · simp [hx] at h; subst h; exact ⟨rfl, rfl⟩
+      · simp [hx] at h; subst h; exact absurd ho hx
+  · simp only [hk, if_false] at h
+    cases hc : c.get? k with
+    | none => simp [hc] at h
+    | some x =>
+      simp only [hc] at h
+      by_cases hx : x.owner = .own
+      · simp [hx] at h
+      · simp [hx] at h; subst h; exact absurd ho hx
+
+/-- **The object equals what a first-time synchronisation would have created**: whatever the cluster held before (older versions,
+left-overs of interrupted synchronisations), the needed object — unless a foreign one is in the way — is the one an empty cluster gets. -/
+theorem syncCert_as_first_time (c : Map (Obj σ)) (hs : Sorted c) (name : String) (want : σ)
+    (h : c.get? name = none ∨ ∃ o, c.get? name = some o ∧ o.owner = .own) :
+    (run c (syncCert c (some (name, want)))).get? name = (run ([] : Map (Obj σ)) (syncCert [] (some (name, want)))).get? name := by
+  rw [syncCert_result c hs, syncCert_result [] Nic.Arb.Map.sorted_nil]
+  simp only [if_true]
+  rcases h with h | ⟨o, h, ho⟩
+  · simp [h, Map.get?]
+  · simp [h, ho, Map.get?]
+
+/-- **After a successful synchronisation a second one performs no writes.** -/
+theorem syncCert_idempotent (c : Map (Obj σ)) (hs : Sorted c) (d : Option (String × σ)) :
+    syncCert (run c (syncCert c d)) d = [] := by
+  cases d with
+  | none => rfl
+  | some nw =>
+    obtain ⟨name, want⟩ := nw
+    have hres := syncCert_result c hs name want
+    have hs' : Sorted (run c (syncCert c (some (name, want)))) := run_sorted _ _ hs
+    generalize run c (syncCert c (some (name, want))) = c' at hres hs'
+    have hup : upsert c' name want = [] := by
+      unfold upsert
+      have := hres name
+      simp only [if_true] at this
+      cases hc : c.get? name with
+      | none => rw [hc] at this; simp [this]
+      | some o =>
+        rw [hc] at this
+        by_cases ho : o.owner = .own
+        · simp [ho] at this; simp [this]
+        · simp [ho] at this; simp [this, ho]
+    simp only [syncCert, hup, List.nil_append, List.foldl_nil]
+    unfold garbage
+    rw [List.map_eq_nil_iff, List.filter_eq_nil_iff]
+    rintro ⟨k, o⟩ hmem
+    have hget := Nic.Arb.Map.get?_of_mem c' hs' k o hmem
+    simp only [Bool.and_eq_true, decide_eq_true_eq, not_and, ne_eq, Decidable.not_not]
+    intro ho
+    rw [hres k] at hget
+    by_cases hk : k = name
+    · exact hk
+    · simp only [hk, if_false] at hget
+      cases hc : c.get? k with
+      | none => simp [hc] at hget
+      | some x =>
+        simp only [hc] at hget
+        by_cases hx : x.owner = .own
+        · simp [hx] at hget
+        · simp [hx] at hget; subst hget; exact absurd ho hx
+
+/-- The object an action writes or deletes. -/
+def Action.target : Action σ → String
+  | .create n _ => n
+  | .update n _ => n
+  | .delete n => n
+
+/-- Every write of a synchronisation is aimed at a free name or at an object this VirtualServer controls. -/
+theorem syncCert_targets (c : Map (Obj σ)) (hs : Sorted c) (d : Option (String × σ)) (a : Action σ) (ha : a ∈ syncCert c d)
+    (o : Obj σ) (h : c.get? a.target = some o) : o.owner = .own := by
+  cases d with
+  | none => simp [syncCert] at ha
+  | some nw =>
+    obtain ⟨name, want⟩ := nw
+    simp only [syncCert, List.mem_append] at ha
+    rcases ha with ha | ha
+    · unfold upsert at ha
+      cases hc : c.get? name with
+      | none => simp [hc] at ha; subst ha; simp [Action.target, hc] at h
+      | some x =>
+        by_cases hx : x.owner = .own
+        · by_cases hsp : x.spec = want
+          · simp [hc, hx, hsp] at ha
+          · simp [hc, hx, hsp] at ha; subst ha; simp [Action.target, hc] at h; subst h; exact hx
+        · simp [hc, hx] at ha
+    · have hfold : List.foldl apply c (upsert c name want) = run c (upsert c name want) := rfl
+      rw [hfold] at ha
+      unfold garbage at ha
+      obtain ⟨⟨k, x⟩, hf, rfl⟩ := List.mem_map.mp ha
+      have hf' := List.mem_filter.mp hf
+      simp only [Bool.and_eq_true, decide_eq_true_eq] at hf'
+      have hk : k ≠ name := by simpa using hf'.2.2
+      have hget := Nic.Arb.Map.get?_of_mem _ (run_sorted c (upsert c name want) hs) k x hf'.1
+      rw [upsert_other c name want k hk] at hget
+      simp only [Action.target] at h
+      rw [hget] at h; cases h
+      exact hf'.2.1
+
+/-- Writes that are not aimed at a foreign object leave every foreign object as it is — whichever of them are carried out. -/
+theorem partial_run_foreign_untouched (c : Map (Obj σ)) (as : List (Action σ)) (k : String) (o : Obj σ)
+    (h : c.get? k = some o) (hnot : ∀ a ∈ as, a.target ≠ k) : (run c as).get? k = some o := by
+  induction as generalizing c with
+  | nil => exact h
+  | cons a r ih =>
+    have hak : a.target ≠ k := hnot a (by simp)
+    have hk' : k ≠ a.target := fun e => hak e.symm
+    apply ih (apply c a) _ (fun b hb => hnot b (List.mem_cons_of_mem _ hb))
+    cases a <;> simp only [apply, Action.target] at hk' ⊢
+    · rw [Map.get?_set_ne _ _ _ _ hk']; exact h
+    · rw [Map.get?_set_ne _ _ _ _ hk']; exact h
+    · rw [Map.get?_erase]; simp [hk', h]
+
+/-- **API errors**: whichever of the writes of a synchronisation fail (conflict, already-exists, …) — any sub-sequence `done` of them
+is carried out — no object that is not controlled by this VirtualServer is updated or deleted, and the next successful
+synchronisation ends in the same state for the needed object as a first-time one (`syncCert_as_first_time` holds for every cluster). -/
+theorem interrupted_sync_foreign_untouched (c : Map (Obj σ)) (hs : Sorted c) (d : Option (String × σ)) (done : List (Action σ))
+    (hsub : done.Sublist (syncCert c d)) (k : String) (o : Obj σ) (h : c.get? k = some o) (ho : o.owner ≠ .own) :
+    (run c done).get? k = some o := by
+  apply partial_run_foreign_untouched c done k o h
+  intro a ha hk
+  have := syncCert_targets c hs d a (hsub.subset ha) o (by rw [hk]; exact h)
+  exact ho this
+
+/-- The ExternalDNS side: one object, named after the VirtualServer; same guarantees. -/
+theorem syncDns_idempotent (c : Map (Obj σ)) (name : String) (d : Option σ) : syncDns (run c (syncDns c name d)) name d = [] := by
+  cases d with
+  | none => rfl
+  | some want => exact upsert_idempotent c name want
+
+theorem syncDns_foreign_untouched (c : Map (Obj σ)) (name : String) (d : Option σ) (k : String) (o : Obj σ)
+    (h : c.get? k = some o) (ho : o.owner ≠ .own) : (run c (syncDns c name d)).get? k = some o := by
+  cases d with
+  | none => simpa [syncDns, run] using h
+  | some want => exact upsert_foreign_untouched c name want k o h ho
+
+theorem syncDns_as_first_time (c : Map (Obj σ)) (name : String) (want : σ)
+    (h : c.get? name = none ∨ ∃ o, c.get? name = some o ∧ o.owner = .own) :
+    (run c (syncDns c name (some want))).get? name = (run ([] : Map (Obj σ)) (syncDns [] name (some want))).get? name := by
+  simp only [syncDns]
+  rw [upsert_result, upsert_result]
+  rcases h with h | ⟨o, h, ho⟩
+  · simp [h, Map.get?]
+  · simp [h, ho, Map.get?]
+
 /-! ### non-vacuity -/
 example : (syncCert ([("s1", ⟨.own, "v1"⟩), ("s0", ⟨.own, "v0"⟩), ("x", ⟨.other, "f"⟩)] : Map (Obj String)) (some ("s1", "v2"))).length = 2 := by decide
 example : syncCert ([("s1", ⟨.none, "f"⟩)] : Map (Obj String)) (some ("s1", "v2")) = [] := by decide
